@@ -16,6 +16,7 @@ Record obs := mkobs {
   o_k : nat;       (* messages that passed each way on it *)
   o_in : list N;   (* numbers of the server's messages in the order they arrived on r.In *)
   o_ack : list N;  (* numbers of the client's messages in the order the server received them *)
+  o_later : list N; (* numbers of the busy sender's messages that arrived on LATER connections (drop noticed by the writer) *)
   o_garbled : list N; (* numbers of the server's messages that were sent undecodable (pkg/status run only) *)
   o_closed : bool  (* cancel iteration only: the server saw the TCP connection end within 1 s of the cancellation *)
 }.
@@ -56,7 +57,10 @@ Definition msgs_ok (b : beh) (is_cancel_iter : bool) (o : obs) : bool :=
   let through := snd (filt_run ok sent (to_in (pump_run (pumps_init (iotaN sent) []) (repeat PRead sent)), [])) in
   list_eqb N.eqb (firstn n through) (o_in o) &&
   list_eqb N.eqb (conn_out (pump_run (pumps_init [] (iotaN m)) (repeat PWrite m))) (o_ack o) &&
-  (is_cancel_iter || match b with AcceptThenDrop k => Nat.eqb n k | _ => true end).
+  (is_cancel_iter || match b with AcceptThenDrop k => Nat.eqb n k | _ => true end) &&
+  (* over all connections the busy sender's messages are an order-preserving sub-list of 0,1,2,.. *)
+  (let all := o_ack o ++ o_later o in
+   is_subseq all (iotaN (S (N.to_nat (fold_right N.max 0%N all))))).
 
 Definition ev_ok (l : loopk) (is_cancel_iter : bool) (b : beh) (e : event) (o : obs) : bool :=
   (negb is_cancel_iter || close_ok b e o) &&
